@@ -196,7 +196,8 @@ units.append(unit(
     "(top-level variable); the form yields the assigned value; assigning to a definition is a compile error and emits nothing",
     "(set a v) where a resolves in the current scope to a local variable, a local definition or a top-level variable (ref cell); " + bound_ctx("value used (with or without hint), dropped or tail position"),
     [M("set-on-def-allowed", "        if (!(dest.flags & JANET_SLOT_MUTABLE)) {", "        if (0) {", "definition is a compile error"),
-     M("set-without-store", "        subopts.flags = JANET_FOPTS_HINT;\n        subopts.hint = dest;", "        subopts.hint = dest;", "holds the new value|stored into the ref cell"),
+     M("set-without-store", "        subopts.flags = JANET_FOPTS_HINT;\n        subopts.hint = dest;\n        JanetSlot ret = janetc_value(subopts, argv[1]);\n        janetc_copy(opts.compiler, dest, ret);",
+       "        subopts.hint = dest;\n        JanetSlot ret = janetc_value(subopts, argv[1]);", "holds the new value|stored into the ref cell"),
      M("set-value-tail", "        subopts.flags = JANET_FOPTS_HINT;\n        subopts.hint = dest;", "        subopts.flags = JANET_FOPTS_HINT | (opts.flags & JANET_FOPTS_TAIL);\n        subopts.hint = dest;", "not as tail call")],
     [A_VALUE, A_RA, A_GROW, A_INTERP, A_ERR, "janetc_const (constant table of the function) returns index 0 and records the constant: the only table constant is the ref cell array; LOAD_CONSTANT 0 yields it",
      "the name is found in the current scope (real janetc_resolve, first loop); global lookup and upvalue capture are not exercised"],
@@ -292,7 +293,7 @@ units.append(unit(
              "janetc_pop_funcdef:sp_pop_funcdef_fn_stub", "janetc_addfuncdef:sp_addfuncdef_fn_stub", "janet_def_addflags:sp_addflags_stub"],
     grow="sp_grow_fn_stub", override={"janetc_regalloc_1": "sp_ra_1_seq_stub"}, wrap_keep=WRAP_KEEP + ["janet_wrap_keyword", "janet_wrap_table", "janet_unwrap_symbol"],
     functions=["janetc_fn", "janetc_farslot", "janetc_nameslot", "janetc_scope"],
-    extra={"unwindset": {"sp_run.0": 14, "janetc_fn.0": 8, "janetc_fn.1": 8, "janetc_fn.2": 10, "janetc_fn.3": 4}, "unwind": 9}))
+    unwind=10))
 
 json.dump({"units": units}, open(os.path.join(VERIF, "units", "C02_specials.json"), "w"), indent=1)
 print("wrote %d units" % len(units))
